@@ -158,6 +158,31 @@ impl<T> M2Array<T> {
     }
 }
 
+/// Number of bytes between the current position and the end of the stream.
+///
+/// The stream position is left unchanged.
+fn remaining_bytes<R: Seek>(reader: &mut R) -> Result<u64> {
+    let pos = reader.stream_position()?;
+    reader.seek(SeekFrom::End(0))?;
+    let end = reader.stream_position()?;
+    reader.seek(SeekFrom::Start(pos))?;
+    Ok(end.saturating_sub(pos))
+}
+
+/// Reads exactly `len` bytes without trusting `len` for the allocation: the buffer
+/// only grows with the bytes the reader really delivers.
+pub(crate) fn read_exact_vec<R: Read>(reader: &mut R, len: u64) -> Result<Vec<u8>> {
+    let mut data = Vec::new();
+    reader.by_ref().take(len).read_to_end(&mut data)?;
+    if (data.len() as u64) < len {
+        return Err(M2Error::Io(std::io::Error::new(
+            std::io::ErrorKind::UnexpectedEof,
+            format!("expected {} bytes, only {} available", len, data.len()),
+        )));
+    }
+    Ok(data)
+}
+
 /// Reads data at an array reference location
 pub fn read_array<T, R, F>(reader: &mut R, array: &M2Array<T>, parse_fn: F) -> Result<Vec<T>>
 where
@@ -173,8 +198,20 @@ where
         .seek(std::io::SeekFrom::Start(array.offset as u64))
         .map_err(M2Error::Io)?;
 
-    // Read each element
-    let mut result = Vec::with_capacity(array.count as usize);
+    // Every element occupies at least one byte of the file, so a count that
+    // exceeds the bytes left after `offset` cannot be satisfied
+    let remaining = remaining_bytes(reader)?;
+    if array.count as u64 > remaining {
+        return Err(M2Error::ParseError(format!(
+            "array of {} elements at offset {:#x} exceeds the {} bytes left in the stream",
+            array.count, array.offset, remaining
+        )));
+    }
+
+    // Read each element. The up-front reservation is limited to the bytes that are
+    // really there; the vector still grows as needed while elements are parsed
+    let reserve = remaining / (std::mem::size_of::<T>().max(1) as u64);
+    let mut result = Vec::with_capacity((array.count as u64).min(reserve) as usize);
     for _ in 0..array.count {
         result.push(parse_fn(reader)?);
     }
@@ -198,11 +235,11 @@ pub fn read_raw_bytes<R: Read + Seek>(
         .map_err(M2Error::Io)?;
 
     // Read raw bytes
-    let total_bytes = array.count as usize * element_size;
-    let mut data = vec![0u8; total_bytes];
-    reader.read_exact(&mut data).map_err(M2Error::Io)?;
+    let total_bytes = (array.count as u64)
+        .checked_mul(element_size as u64)
+        .ok_or_else(|| M2Error::ParseError("array byte size overflows".to_string()))?;
 
-    Ok(data)
+    read_exact_vec(reader, total_bytes)
 }
 
 /// A vector in 3D space
@@ -320,8 +357,7 @@ impl FixedString {
 
     /// Parse a fixed-width string from a reader
     pub fn parse<R: Read + Seek>(reader: &mut R, len: usize) -> Result<Self> {
-        let mut data = vec![0u8; len];
-        reader.read_exact(&mut data)?;
+        let mut data = read_exact_vec(reader, len as u64)?;
 
         // Find null terminator
         let null_pos = data.iter().position(|&b| b == 0).unwrap_or(len);
